@@ -94,7 +94,13 @@ def request_in_domain(req, model_answer):
         if not model_answer.startswith("ok"):
             return False
         m = (T.parse_tx_answer if kind == "tx" else T.parse_rx_answer)(model_answer)
-        return m is not None and in_quantifier(kind, m)
+        if m is None or not in_quantifier(kind, m):
+            return False
+        # ... and the octets ARE an encoding of that message (with or without legacy padding): octets no encoder emits
+        # (a reserved bit set, a burst length that does not fit the modulation, ...) are not what C01 speaks about
+        octs = bytes(T.dec_octets(t[-1]))
+        lay = T.layout_tx if kind == "tx" else T.layout_rx
+        return any(bytes(lay(m, l)) == octs for l in (0, 1))
     except (IndexError, ValueError, KeyError, TypeError):
         return False
 
